@@ -326,6 +326,9 @@ func (w *w1) knownLogStored(topic string, part int32) []logBatch {
 // acknowledged data or cause offset reuse."
 func (w *w1) opVerify(client int) {
 	n := w.node(0)
+	// the property is about a NEW broker opening the partitions: always restart first
+	w.sim.CrashNode(n.name)
+	simrt.Sleep(time.Duration(w.cfg("restart_delay_ms", 50)+20) * time.Millisecond)
 	for i := 0; n.h == nil && i < 200; i++ {
 		simrt.Sleep(10 * time.Millisecond)
 	}
